@@ -24,6 +24,7 @@ pub mod c14;
 pub mod c15;
 pub mod c15_conn;
 pub mod c16;
+pub mod c16_adm;
 pub mod c16_lab;
 pub mod c17;
 pub mod c17_lab;
